@@ -762,4 +762,4 @@ pub fn run(rep: &Report) {
     rep.floor("shapes enumerated", rep.evals(), 10_000);
 }
 
-pub const RULE: &str = "complete enumeration of the source grammar's instruction shapes: every two-operand / one-operand / shift / mov / xchg / push / pop / lea template with a memory operand x all 85 addressing shapes x two displacement+spelling sets; every register pair, immediate radix (decimal, 0x, 0b, negative, OFFSET), data-label form, every jump/loop spelling, single-opcode instruction, string instruction with every prefix spelling, print statement, macro definition/use and data directive kind, in lower and upper case; plus random whole programs. For each accepted program every data line goes to DataParser, every code line to Interpreter::parse in the context built from that program, and programs with print statements through the real binary looking for 'Internal Error'. Single-defect programs (C14's mutation classes, driver-level ones always) are run through the binary as well: refused or run, they must never reach an 'Internal Error' path. Keyword terminals scraped from the grammar are cross-checked for coverage. Distinct = shape class. Seven large accepted programs through the binary (recursion 33000 / 40000 deep, 66000 instructions, 70000 data lines, 3000 labels, 400 procedures, 300 macro parameters): no Internal Error, no abort, the end is reached.";
+pub const RULE: &str = "complete enumeration of the source grammar's instruction shapes: every two-operand / one-operand / shift / mov / xchg / push / pop / lea template with a memory operand x all 85 addressing shapes x two displacement+spelling sets; every register pair, immediate radix (decimal, 0x, 0b, negative, OFFSET), data-label form, every jump/loop spelling, single-opcode instruction, string instruction with every prefix spelling, print statement, macro definition/use and data directive kind, in lower and upper case; plus random whole programs. For each accepted program every data line goes to DataParser, every code line to Interpreter::parse in the context built from that program, and programs with print statements through the real binary looking for 'Internal Error'. Single-defect programs (C14's mutation classes, driver-level ones always) are run through the binary as well: refused or run, they must never reach an 'Internal Error' path. Keyword terminals scraped from the grammar are cross-checked for coverage. Distinct = shape class. Seven large accepted programs through the binary (recursion 33000 / 40000 deep, 66000 instructions, 70000 data lines, 3000 labels, 400 procedures, 300 macro parameters): no Internal Error, no abort, the end is reached. Identifier-alphabet probes: 16 names with non-ASCII letters / digits / marks and edge spellings in six roles (what the assembler accepts, the later stages must accept); programs whose RET has nothing to return to must be reported as a run-time error of the program, not as Internal Error.";
